@@ -7,7 +7,7 @@ use std::os::fd::{AsRawFd, OwnedFd};
 use zvariant::serialized::{Context, Data, Format};
 use zvariant::{Endian, Value};
 
-fn ctx(fmt: &str, le: bool, pos: usize) -> Context {
+pub fn ctx(fmt: &str, le: bool, pos: usize) -> Context {
     let e = if le { Endian::Little } else { Endian::Big };
     match fmt {
         "dbus" => Context::new(Format::DBus, e, pos),
